@@ -181,3 +181,19 @@ package btree
 //@     invariant n != nil && allocated(n) && old(n) != nil && (n != old(n) ==> len(n.items) >= 1)
 //@     invariant #subset forall k int :: { n.gk[k] } n.gk[k] ==> old(n).gk[k]
 //@     invariant #rest forall k1 int, k2 int :: { old(n).gk[k1], n.gk[k2] } old(n).gk[k1] && !n.gk[k1] && n.gk[k2] ==> k1 < k2
+//
+// the tree's own lookups: the root's key set is the tree's key set (an empty tree has no root or an empty root)
+//@ pure thas(t *BTree, k int) bool = t.root != nil && t.root.gk[k]
+//@ pure twf(t *BTree) bool = t != nil && treeok() && (t.root == nil || allocated(t.root))
+// (BTree.Get / Has are one-line wrappers of node.get; they get no contract of their own here because the locked wrapper
+// ds/tree is verified against the ASSUMED abstract-map contract of these two methods in /verif/extern/btree.spec)
+//@ func BTree.Min
+//@   requires twf(t)
+//@   ensures #empty result == nil ==> forall k int :: { thas(t, k) } !thas(t, k)
+//@   ensures #least result != nil ==> thas(t, kid(result)) && forall k int :: { thas(t, k) } thas(t, k) ==> kid(result) <= k
+//@   modifies
+//@ func BTree.Max
+//@   requires twf(t)
+//@   ensures #empty result == nil ==> forall k int :: { thas(t, k) } !thas(t, k)
+//@   ensures #greatest result != nil ==> thas(t, kid(result)) && forall k int :: { thas(t, k) } thas(t, k) ==> k <= kid(result)
+//@   modifies
